@@ -263,3 +263,288 @@ def parse_top_ports(rtlil, top="top"):
 
 def bit_names(name, width):
     return [name] if width == 1 else [f"{name}[{i}]" for i in range(width)]
+
+
+# ------------------------------------------------------------------ Tcl-based constraint files (.qsf .sdc .xdc .pdc)
+def ascii_escape(name):
+    """the SymbiFlow flows name nets with every character outside [A-Za-z0-9_] replaced by _<hex code>_"""
+    return "".join(c if (c.isascii() and (c.isalnum() or c == "_")) else "_%02x_" % ord(c) for c in name)
+
+
+class TclWord:
+    __slots__ = ("kind", "text", "raw", "subst", "words")
+
+    def __init__(self, kind, text, raw="", subst=False, words=None):
+        self.kind, self.text, self.raw, self.subst, self.words = kind, text, raw, subst, words
+
+    def __repr__(self):
+        return f"<{self.kind} {self.text!r}>"
+
+
+def tcl_commands(text, comment="#", diamond=False):
+    """A small Tcl word reader: -> list of commands, each a list of TclWord.
+    "quoted" words are decoded by Tcl's double-quote rules: backslash + char = that char; an unescaped `[` or `$`
+    would be a substitution (word.subst = True). {braced} words are literal. [bracketed] words are nested commands
+    (kind "cmd", .words). Bare words are literal (a balanced [n] inside a bare word belongs to the word: the pdc
+    dialect of nextpnr). With diamond=True a quoted word is first un-doubled (`\\\\` -> `\\`): Diamond reads SDC names
+    with one more level of backslash escaping (vendor quirk stated in amaranth/build/plat.py)."""
+    pos, n = 0, len(text)
+    cmds = []
+
+    def skip_ws(i, newline_is_ws):
+        while i < n and (text[i] in " \t\r" or (text[i] == "\\" and i + 1 < n and text[i + 1] == "\n")
+                         or (newline_is_ws and text[i] == "\n")):
+            i += 2 if text[i] == "\\" else 1
+        return i
+
+    def read_quoted(i):
+        j = i + 1
+        raw = []
+        while j < n and text[j] != '"':
+            if text[j] == "\\" and j + 1 < n:
+                raw.append(text[j:j + 2])
+                j += 2
+            else:
+                raw.append(text[j])
+                j += 1
+        if j >= n:
+            raise ParseError("unterminated quoted word")
+        raw = "".join(raw)
+        src = raw.replace("\\\\", "\\") if diamond else raw
+        out, subst, k = [], False, 0
+        while k < len(src):
+            c = src[k]
+            if c == "\\" and k + 1 < len(src):
+                out.append(src[k + 1])
+                k += 2
+                continue
+            if c in "[$":
+                subst = True
+            out.append(c)
+            k += 1
+        return TclWord("quoted", "".join(out), raw, subst), j + 1
+
+    def read_braced(i):
+        depth, j = 0, i
+        while j < n:
+            if text[j] == "\\":
+                j += 2
+                continue
+            if text[j] == "{":
+                depth += 1
+            elif text[j] == "}":
+                depth -= 1
+                if depth == 0:
+                    return TclWord("braced", text[i + 1:j], text[i:j + 1]), j + 1
+            j += 1
+        raise ParseError("unterminated braced word")
+
+    def read_bare(i, in_bracket):
+        j, depth = i, 0
+        while j < n:
+            c = text[j]
+            if c == "[":
+                depth += 1
+            elif c == "]":
+                if depth == 0:
+                    break
+                depth -= 1
+            elif depth == 0 and (c in " \t\r\n;"):
+                break
+            j += 1
+        return TclWord("bare", text[i:j], text[i:j]), j
+
+    def read_words(i, in_bracket):
+        words = []
+        while True:
+            i = skip_ws(i, in_bracket)
+            if i >= n:
+                if in_bracket:
+                    raise ParseError("unterminated [command]")
+                return words, i
+            c = text[i]
+            if in_bracket and c == "]":
+                return words, i + 1
+            if not in_bracket and c in "\n;":
+                return words, i + 1
+            if c == '"':
+                w, i = read_quoted(i)
+            elif c == "{":
+                w, i = read_braced(i)
+            elif c == "[":
+                sub, i = read_words(i + 1, True)
+                w = TclWord("cmd", sub[0].text if sub else "", "", False, sub)
+            else:
+                w, i = read_bare(i, in_bracket)
+                if w.text == "" and i < n:           # a stray `}` or similar single character
+                    w, i = TclWord("bare", text[i], text[i]), i + 1
+            words.append(w)
+
+    while pos < n:
+        pos = skip_ws(pos, False)
+        if pos >= n:
+            break
+        if text.startswith(comment, pos):
+            while pos < n and text[pos] != "\n":
+                pos += 1
+            continue
+        words, pos = read_words(pos, False)
+        if words:
+            cmds.append(words)
+    return cmds
+
+
+def _all_words(words):
+    for w in words:
+        yield w
+        if w.kind == "cmd":
+            yield from _all_words(w.words)
+
+
+def _target(word):
+    """name designated by a [get_ports NAME] / [get_nets NAME] word or by a plain word"""
+    if word.kind == "cmd":
+        args = [w for w in word.words[1:] if not (w.kind == "bare" and (w.text.startswith("-") or w.text == "}"))]
+        return args[0].text if args else None
+    return word.text
+
+
+def extract_tcl(text, comment="#", diamond=False, period_unit=1e9):
+    """-> dict(loc [(name, pin)], attrs [(name, key, value)], freq [(name, hz)], quote_errs [raw word])"""
+    out = {"loc": [], "attrs": [], "freq": [], "quote_errs": [], "quoted": []}
+    for cmd in tcl_commands(text, comment, diamond):
+        for w in _all_words(cmd):
+            if w.kind == "quoted":
+                out["quoted"].append(w.text)
+                if w.subst:
+                    out["quote_errs"].append('"' + w.raw + '"')
+        head, args = cmd[0].text, cmd[1:]
+        opts, plain, i = {}, [], 0
+        with_value = {"set_location_assignment": ("-to",), "set_instance_assignment": ("-to", "-name"),
+                      "create_clock": ("-name", "-period"), "ldc_set_location": ("-site",), "ldc_set_port": ("-iobuf",)}.get(head)
+        if with_value is None and head != "set_property":
+            continue
+        while i < len(args):
+            w = args[i]
+            if with_value and w.kind == "bare" and w.text in with_value and i + 1 < len(args):
+                opts[w.text] = args[i + 1]
+                i += 2
+            else:
+                plain.append(w)
+                i += 1
+        if head == "set_location_assignment" and "-to" in opts and plain:
+            pin = plain[0].text
+            out["loc"].append((opts["-to"].text, pin[4:] if pin.startswith("PIN_") else pin))
+        elif head == "set_instance_assignment" and "-to" in opts and "-name" in opts and plain:
+            out["attrs"].append((opts["-to"].text, opts["-name"].text, plain[0].text))
+        elif head == "set_property" and len(plain) >= 3:
+            name = _target(plain[2])
+            if plain[0].text == "LOC":
+                out["loc"].append((name, plain[1].text))
+            else:
+                out["attrs"].append((name, plain[0].text, plain[1].text))
+        elif head == "ldc_set_location" and "-site" in opts and plain:
+            out["loc"].append((_target(plain[0]), opts["-site"].text))
+        elif head == "ldc_set_port" and "-iobuf" in opts and plain:
+            for kv in opts["-iobuf"].text.split():
+                k, _, v = kv.partition("=")
+                out["attrs"].append((_target(plain[0]), k, v))
+        elif head == "create_clock" and "-period" in opts and plain:
+            out["freq"].append((_target(plain[0]), period_unit / float(opts["-period"].text)))
+    return out
+
+
+def extract_lpf(text):
+    out = {"loc": [], "attrs": [], "freq": [], "quote_errs": []}
+    body = "\n".join(l.split("#", 1)[0] for l in text.splitlines())
+    for stmt in body.split(";"):
+        stmt = " ".join(stmt.split())
+        if not stmt:
+            continue
+        m = re.fullmatch(r'LOCATE COMP "([^"]*)" SITE "([^"]*)"', stmt)
+        if m:
+            out["loc"].append((m.group(1), m.group(2)))
+            continue
+        m = re.fullmatch(r'FREQUENCY (PORT|NET) "([^"]*)" ([0-9.eE+-]+) HZ', stmt)
+        if m:
+            out["freq"].append((m.group(2), float(m.group(3))))
+            continue
+        m = re.fullmatch(r'IOBUF PORT "([^"]*)"((?: \S+=\S*)*)', stmt)
+        if m:
+            for kv in m.group(2).split():
+                k, _, v = kv.partition("=")
+                out["attrs"].append((m.group(1), k, v))
+            continue
+        if re.fullmatch(r"BLOCK \w+", stmt):
+            continue
+        raise ParseError(stmt)
+    return out
+
+
+def extract_cst(text):
+    out = {"loc": [], "attrs": [], "freq": [], "quote_errs": []}
+    body = "\n".join(l.split("//", 1)[0] for l in text.splitlines())
+    for stmt in body.split(";"):
+        stmt = " ".join(stmt.split())
+        if not stmt:
+            continue
+        m = re.fullmatch(r'IO_LOC "([^"]*)" (\S+)', stmt)
+        if m:
+            out["loc"].append((m.group(1), m.group(2)))
+            continue
+        m = re.fullmatch(r'IO_PORT "([^"]*)" (\S+)=(\S*)', stmt)
+        if m:
+            out["attrs"].append((m.group(1), m.group(2), m.group(3)))
+            continue
+        raise ParseError(stmt)
+    return out
+
+
+def extract_pcf(text):
+    loc, freq = parse_pcf(text)
+    return {"loc": loc, "attrs": [], "freq": freq, "quote_errs": []}
+
+
+def extract_ucf(text):
+    """ISE: NET "n<bit>" LOC=pin; NET "n" KEY=VALUE; NET "n" TNM_NET="G"; TIMESPEC "TS"=PERIOD "G" <ns> ns HIGH 50%;"""
+    out = {"loc": [], "attrs": [], "freq": [], "quote_errs": []}
+    groups = {}
+    body = "\n".join(l.split("#", 1)[0] for l in text.splitlines())
+    for stmt in body.split(";"):
+        stmt = " ".join(stmt.split())
+        if not stmt:
+            continue
+        m = re.fullmatch(r'NET "([^"]*)" (\w+)=("?)([^"]*)\3', stmt)
+        if m:
+            name = re.sub(r"<(\d+)>$", r"[\1]", m.group(1))
+            if m.group(2) == "LOC":
+                out["loc"].append((name, m.group(4)))
+            elif m.group(2) == "TNM_NET":
+                groups[m.group(4)] = name
+            else:
+                out["attrs"].append((name, m.group(2), m.group(4)))
+            continue
+        m = re.fullmatch(r'TIMESPEC "([^"]*)"=PERIOD "([^"]*)" ([0-9.eE+-]+) ns HIGH 50%', stmt)
+        if m:
+            out["freq"].append((groups.get(m.group(2), "?" + m.group(2)), 1e9 / float(m.group(3))))
+            continue
+        raise ParseError(stmt)
+    return out
+
+
+def expected_attrs(resource_node, path):
+    """attributes of the leaf at `path`: resource level first, overridden level by level; None removes a key;
+    a callable ({"call": text}) stands for the text it returns"""
+    acc = {}
+    node = resource_node
+
+    def merge(a):
+        for k, v in (a or {}).items():
+            acc[k] = v
+        for k in [k for k, v in acc.items() if v is None]:
+            del acc[k]
+    merge(node.get("attrs"))
+    for name in path:
+        node = next(s["node"] for s in node["subs"] if s["name"] == name)
+        merge(node.get("attrs"))
+    return {k: (v["call"] if isinstance(v, dict) else str(v)) for k, v in acc.items()}
